@@ -119,16 +119,23 @@ def r2_positional_binding(ctx: Ctx) -> None:
             if (call_name(c) or "").endswith("add_symbol") or call_name(c) == "SymbolNode":
                 ctx.check(unparse(c.args[0]) == pv, f"generate_macro_application:{unparse(c)[:40]}", "binds the loop's own parameter name")
     ctx.floor("positional_reads", 2)
-    # the evaluated list stays aligned: exactly one append on every path of the first loop's body
+    # the evaluated list stays aligned: every trip round the evaluation loop appends exactly one entry (value, or the deferral marker)
     for lp, iv, pv in idx_vars:
         apps = [c for c in calls_in(lp) if call_name(c) == "evaluated_args.append"]
         if not apps:
             continue
-        for t in [s for s in lp.body if isinstance(s, ast.Try)]:
-            in_body = sum(1 for c in apps if any(x is c for b in t.body for x in ast.walk(b)))
-            in_handlers = [sum(1 for c in apps if any(x is c for b in h.body for x in ast.walk(b))) for h in t.handlers]
-            ctx.check(in_body == 1 and all(n == 1 for n in in_handlers), "generate_macro_application:aligned-list",
-                      f"one entry per parameter on the normal path and in each handler (body {in_body}, handlers {in_handlers}); otherwise later parameters shift")
+        g = CFG(fn.node)
+        head = g.node_of(lp)
+        app_nodes = [g.node_containing(c) for c in apps]
+        inside = {id(x) for st_ in lp.body for x in ast.walk(st_)}
+        outside = [nid for nid, n in g.nodes.items() if nid != head and (n.ast is None or id(n.ast) not in inside)]
+        starts = [m for m, lab in g.succ[head] if lab == "loop"]
+        # an 'exc' edge leaves a statement that did NOT complete: it bypasses that append
+        bypass = [m for a in app_nodes for m, lab in g.succ[a] if lab == "exc"]
+        skip = head in g.reachable(starts + bypass, blocked=app_nodes + outside)
+        twice = any(a2 in g.reachable([m for m, lab in g.succ[a1] if lab != "exc"], blocked=[head] + outside) for a1 in app_nodes for a2 in app_nodes)
+        ctx.check(not skip and not twice, "generate_macro_application:aligned-list",
+                  "one entry per parameter on every path of the evaluation loop (normal and deferred); otherwise later parameters shift or the argument is dropped")
     # failures are not absorbed
     md = [n for n in walk_no_nested(fn.node) if isinstance(n, ast.Subscript) and unparse(n.value) == "macro_definitions"]
     ctx.check(len(md) == 1 and unparse(md[0].slice) == "node.name" and not [c for c in calls_in(fn.node) if unparse(c.func) == "macro_definitions.get"],
@@ -169,8 +176,8 @@ def r4_only_symbol_not_defined_defers(ctx: Ctx) -> None:
         for h in t.handlers:
             names = handler_names(h)
             ctx.check(names == {"SymbolNotDefined"}, f"generate_macro_application:defers-on {unparse(h.type)}", "only a not-yet-defined symbol (forward label) defers an argument")
-            keeps = any(call_name(c) in ("evaluated_args.append", "code.append") for c in calls_in(ast.Module(body=h.body, type_ignores=[])))
-            ctx.check(keeps and not any(isinstance(s, (ast.Pass, ast.Continue)) for s in h.body), f"generate_macro_application:handler-keeps {unparse(h.type)}", "the deferred argument is recorded, not dropped")
+            ctx.check(not any(isinstance(s_, (ast.Continue, ast.Return, ast.Break)) for s_ in h.body), f"generate_macro_application:handler-keeps {unparse(h.type)}",
+                      "the handler does not leave the loop body early (the deferred argument is still recorded: see aligned-list)")
     # the None marker leads to a SymbolNode for the same position
     marker_if = [s for s in walk_no_nested(fn.node) if isinstance(s, ast.If) and "is not None" in unparse(s.test)]
     ok = False
